@@ -104,7 +104,11 @@ func Modify(node Node, f func(Node) (Node, bool)) (Node, bool) { //nolint:funlen
 			if !ok {
 				return nil, false
 			}
-			newNode.Parameters[i] = id.(*Identifier)
+			pid, isID := id.(*Identifier)
+			if !isID { // f replaced the parameter by something else (e.g. a register): not modifiable.
+				return nil, false
+			}
+			newNode.Parameters[i] = pid
 		}
 		nb, ok := Modify(node.Body, f)
 		if !ok {
@@ -191,7 +195,11 @@ func Modify(node Node, f func(Node) (Node, bool)) (Node, bool) { //nolint:funlen
 			if !ok {
 				return nil, false
 			}
-			newNode.Parameters[i] = id.(*Identifier)
+			pid, isID := id.(*Identifier)
+			if !isID { // f replaced the parameter by something else (e.g. a register): not modifiable.
+				return nil, false
+			}
+			newNode.Parameters[i] = pid
 		}
 		nb, ok := Modify(node.Body, f)
 		if !ok {
